@@ -51,11 +51,87 @@ fn run(ops: &str) -> Option<String> {
         Err(_) => Some(format!("{desc} expected=no-panic actual=panic")),
     }
 }
+/// The real writer thread (LogFileWriter::start_writer_thread) on a scratch directory: `n` events with `msg` bytes of
+/// message each, keep-size `keep`, per-file size `write` (>= 64 KiB).  Oracle, from the property: the writer keeps
+/// running; every surviving file holds whole lines that are a contiguous run of the accepted events in order; the runs
+/// together are a most-recent suffix of the log; the total size of the prefix files exceeds `keep` by at most one event;
+/// no file exceeds `write` by more than one event.
+fn run_writer(keep: u64, write: u64, n: usize, msg: usize) -> Option<String> {
+    use servlin::log::internal::LogEvent;
+    use servlin::log::{tag, LogFileWriter};
+    let dir = scratch();
+    let desc = format!("writer keep={keep} write={write} n={n} msg={msg}");
+    let prefix = dir.join("log");
+    let fail = |m: String| { let _ = std::fs::remove_dir_all(&dir); Some(format!("{desc} {m}")) };
+    let sender = match LogFileWriter::new_builder(prefix.clone(), keep).with_max_write_bytes(write).start_writer_thread() {
+        Ok(s) => s,
+        Err(e) => return fail(format!("expected=writer-starts actual={e:?}")),
+    };
+    let mut max_line = 0u64;
+    for i in 0..n {
+        let text = format!("{i:08}{}", "x".repeat(msg));
+        let ev = LogEvent::new(servlin::log::Level::Info, tag("msg", text));
+        let mut b = Vec::new();
+        ev.write_jsonl(&mut b).unwrap();
+        max_line = max_line.max(b.len() as u64);
+        if sender.send(ev).is_err() {
+            return fail(format!("expected=writer-keeps-running actual=writer thread gone at event {i}"));
+        }
+    }
+    // quiescence: the last event has reached a file (or the writer died)
+    let want_last = format!("\"msg\":\"{:08}", n - 1);
+    let t0 = std::time::Instant::now();
+    let mut files: Vec<(String, Vec<u8>)>;
+    loop {
+        files = std::fs::read_dir(&dir).unwrap().map(|e| e.unwrap()).filter(|e| e.file_name().to_string_lossy().starts_with("log"))
+            .map(|e| (e.file_name().to_string_lossy().to_string(), std::fs::read(e.path()).unwrap_or_default())).collect();
+        if files.iter().any(|(_, c)| String::from_utf8_lossy(c).contains(&want_last)) { break; }
+        if t0.elapsed() > Duration::from_secs(5) {
+            return fail(format!("expected=last event written actual=not on disk after 5 s (writer thread dead?)"));
+        }
+        std::thread::sleep(Duration::from_millis(5));
+    }
+    std::thread::sleep(Duration::from_millis(30));
+    drop(sender);
+    let total: u64 = files.iter().map(|(_, c)| c.len() as u64).sum();
+    if total > keep.max(0) + max_line {
+        return fail(format!("expected=total<={}+{max_line} actual=total {total} in {} files", keep, files.len()));
+    }
+    let mut seen: Vec<usize> = Vec::new();
+    for (name, c) in &files {
+        if c.len() as u64 > write + max_line { return fail(format!("expected=file<={write}+{max_line} actual={name} has {} bytes", c.len())); }
+        let text = String::from_utf8_lossy(c).to_string();
+        if !text.is_empty() && !text.ends_with('\n') { return fail(format!("expected=whole lines actual={name} ends in a partial line")); }
+        let mut idx: Vec<usize> = Vec::new();
+        for l in text.lines() {
+            if l.contains("Starting log writer") { continue; }
+            match l.split("\"msg\":\"").nth(1).and_then(|r| r.get(0..8)).and_then(|d| d.parse::<usize>().ok()) {
+                Some(k) if l.starts_with('{') && l.ends_with('}') => idx.push(k),
+                _ => return fail(format!("expected=whole event lines actual={name} has line {l:?}")),
+            }
+        }
+        if idx.windows(2).any(|w| w[1] != w[0] + 1) { return fail(format!("expected=contiguous in-order lines actual={name} has events {idx:?}")); }
+        seen.extend(idx);
+    }
+    seen.sort();
+    if seen.windows(2).any(|w| w[1] != w[0] + 1) || seen.last() != Some(&(n - 1)) {
+        return fail(format!("expected=surviving events are a most-recent suffix without gaps or duplicates actual={:?}..{:?} ({} lines)", seen.first(), seen.last(), seen.len()));
+    }
+    let _ = std::fs::remove_dir_all(&dir);
+    None
+}
 fn main() {
     std::panic::set_hook(Box::new(|_| {}));
     let args: Vec<String> = std::env::args().collect();
     if args.len() >= 3 && args[1] == "replay" {
         let w = args[2..].join(" ");
+        if w.starts_with("writer ") {
+            let g = |k: &str| -> u64 { w.split(&format!("{k}=")).nth(1).unwrap().split(' ').next().unwrap().parse().unwrap() };
+            match run_writer(g("keep"), g("write"), g("n") as usize, g("msg") as usize) {
+                Some(m) => { println!("WITNESS {m}"); std::process::exit(1) }
+                None => { println!("OK witness no longer fails"); std::process::exit(0) }
+            }
+        }
         let ops = w.split("ops=").nth(1).unwrap().split(' ').next().unwrap().to_string();
         match run(&ops) {
             Some(m) => { println!("WITNESS {m}"); std::process::exit(1) }
@@ -74,6 +150,12 @@ fn main() {
             n += 1;
             if let Some(m) = run(&ops.join(",")) { if found.len() < 5 { found.push(m) } }
         }
+    }
+    // the writer thread itself: keep-size below / around / above the per-file size, events small and large
+    for &(keep, write, cnt, msg) in &[(1000u64, 65536u64, 40usize, 100usize), (0, 65536, 10, 10), (70000, 65536, 900, 100), (200000, 65536, 1500, 100),
+                                      (150000, 65536, 40, 20000), (65536, 65536, 700, 100), (300, 65536, 3, 1000)] {
+        n += 1;
+        if let Some(m) = run_writer(keep, write, cnt, msg) { if found.len() < 5 { found.push(m) } }
     }
     println!("EVALUATED {n}");
     for f in &found { println!("WITNESS {f}"); }
